@@ -429,7 +429,7 @@ func (c *compiler) resolveLeafref(y *Type, parent Leafable) error {
 
 // a leaf that states no default or units has those of the nearest typedef that states them
 func (c *compiler) inheritFromTypedef(parent Leafable, tdef *Typedef) {
-	if !parent.HasDefault() {
+	if !parent.HasDefault() && !typeDefaultUnused(parent) {
 		if tdef.HasDefault() {
 			parent.setDefaultValue(tdef.DefaultValue())
 		}
@@ -437,6 +437,18 @@ func (c *compiler) inheritFromTypedef(parent Leafable, tdef *Typedef) {
 	if parent.Units() == "" {
 		parent.setUnits(tdef.Units())
 	}
+}
+
+// RFC7950 Sec 7.6.1, 7.7.2: the default of the type is the default of a leaf that is not
+// mandatory, of a leaf-list whose min-elements is 0
+func typeDefaultUnused(l Leafable) bool {
+	switch x := l.(type) {
+	case *Leaf:
+		return x.IsMandatorySet() && x.Mandatory()
+	case *LeafList:
+		return x.MinElements() > 0
+	}
+	return false
 }
 
 func (c *compiler) findTypedef(y *Type, parent Definition, qualifiedIdent string) (*Typedef, error) {
